@@ -10,9 +10,10 @@ Variable piece : Type.
 Variable nfiles : piece -> nat.        (* piece.files.len() *)
 Variable gid : piece -> nat.           (* piece.files[0].metadata.id *)
 
-(** Stable sort ascending by number of files ([sort_by]), then [reverse]. *)
+(** Stable sort ascending by number of files ([sort_by]: equal elements keep their order - [x] is
+    inserted from the right, before the first element that is not smaller), then [reverse]. *)
 Fixpoint ins (x : piece) (l : list piece) : list piece :=
-  match l with [] => [x] | y :: r => if nfiles x <? nfiles y then x :: l else y :: ins x r end.
+  match l with [] => [x] | y :: r => if nfiles y <? nfiles x then y :: ins x r else x :: l end.
 Fixpoint sort_asc (l : list piece) : list piece := match l with [] => [] | x :: r => ins x (sort_asc r) end.
 
 (** One round over the groups: the last element of every non-empty group. *)
